@@ -41,6 +41,8 @@ def gen_action(t, r):
 def value(r, cls):
     if cls == "plain" and r.random() < 0.08:
         return ""       # the empty string (e.g. the null envelope sender) is a value like any other
+    if cls == "plain" and r.random() < 0.1:
+        return r.choice(["[SPAM]", "[]", "[a b]", "{x}", "(y)", "[é]", "[x", "y]", "#z", ";", "[[a]]"])   # look-alikes of list / block syntax
     while True:
         v = "".join(r.choice(VALUE_CLASSES[cls]) for _ in range(r.randint(1, 4)))
         if not v.startswith(('"', "'", ":", "not")) and v.strip() == v and v:
